@@ -1,5 +1,6 @@
 #!/bin/bash
 # tools/evalmut.sh <prop> <k> [props-to-check...]
+# DEMOTAGS="ark_tiny" runs the demonstration under that tag set (for changes that only show in one build).
 # Confirms a sub-agent's change in a scratch worktree (suite passes under 4 tag sets with the change; demo fails
 # with it and passes without), stores it under /verif/seeded/<prop>-<k>/ and records which checks catch it.
 set -u
@@ -27,9 +28,9 @@ pkgline=$(grep -m1 '^package ' $demo)
 cp $demo ecs/zz_demo_test.go
 tests=$(grep -o '^func Test[A-Za-z0-9_]*' ecs/zz_demo_test.go | sed 's/func //' | paste -sd'|')
 race=""; if [ "${RACE:-}" = 1 ]; then race="-race"; export CGO_ENABLED=1; fi
-go test -vet=off -count=1 $race -run "^($tests)\$" ./ecs/ >/tmp/ev/$id.with.log 2>&1 && with=pass || with=fail
+go test -vet=off -count=1 $race -tags "${DEMOTAGS:-}" -run "^($tests)\$" ./ecs/ >/tmp/ev/$id.with.log 2>&1 && with=pass || with=fail
 git apply -R $src/patch.diff
-go test -vet=off -count=1 $race -run "^($tests)\$" ./ecs/ >/tmp/ev/$id.without.log 2>&1 && without=pass || without=fail
+go test -vet=off -count=1 $race -tags "${DEMOTAGS:-}" -run "^($tests)\$" ./ecs/ >/tmp/ev/$id.without.log 2>&1 && without=pass || without=fail
 rm -f ecs/zz_demo_test.go
 echo "$id: files=[$files] suite=$suite demo_with=$with demo_without=$without race=$race"
 if [ "$suite" = ok ] && [ "$with" = fail ] && [ "$without" = pass ]; then
